@@ -66,8 +66,18 @@ def verify(src, prop, name, crate='chiritori'):
 
 
 def run(name, checks):
+    global REPO
     d = f'{VERIF}/seeded/{name}'
     meta = json.load(open(d + '/meta.json'))
+    env = dict(os.environ, VERIF_EVIDENCE_DIR='/tmp/seed-evidence')
+    if os.environ.get('SEED_SCRATCH'):
+        # work on a scratch clone of /repo (VERIF_REPO / VERIF_BUILD point the checks at it): /repo itself stays untouched
+        REPO = os.environ['SEED_SCRATCH']
+        if not os.path.isdir(REPO + '/.git'):
+            rc, out = sh(f'git clone -q /repo {REPO}')
+            assert rc == 0, out
+        sh(f'git -C {REPO} fetch -q /repo HEAD && git -C {REPO} checkout -q --detach FETCH_HEAD')
+        env.update(VERIF_REPO=REPO, VERIF_BUILD=REPO + '-build')
     rc, out = sh(f'git -C {REPO} status --porcelain')
     assert out.strip() == '', 'repo not clean: ' + out
     rc, out = sh(f'git -C {REPO} apply {d}/patch.diff')
@@ -76,7 +86,7 @@ def run(name, checks):
     try:
         for c in checks:
             t0 = time.time()
-            rc, out = sh(f'./check {c} --tier quick', cwd=VERIF, env=dict(os.environ, VERIF_EVIDENCE_DIR='/tmp/seed-evidence'))
+            rc, out = sh(f'./check {c} --tier quick', cwd=VERIF, env=env)
             viol = [l for l in out.split('\n') if l.startswith('VIOLATION')]
             detail = [l.strip() for l in out.split('\n') if l.startswith('  ') and 'input=' in l][:2]
             results[c] = dict(exit=rc, violations=len(viol), wall_s=round(time.time() - t0, 1), detail=detail,
